@@ -705,3 +705,133 @@ def dec_cover(prog, floor=25):
     if ndec < floor:
         raise AnalysisBroken('DEC-COVER: only %d decoders with the standard table search' % ndec)
     return RuleResult('DEC-COVER', obs, floor, {'decoders': ndec})
+
+
+def _std_tables(prog):
+    """{table name: decoder fn} for the opcode tables searched with `(word & table[n].mask) == table[n].opcode`."""
+    std = {}
+    for fn in prog.fns.values():
+        if not fn.blocks or not fn.file.startswith('disasm/'):
+            continue
+        for n in fn.nodes.values():
+            if n['k'] == 'BinaryOperator' and n.get('op') in ('==', '!='):
+                txts = [show(x) for x in kids(n)]
+                for x in txts:
+                    if 'table_' in x and '.mask' in x and '&' in x:
+                        import re
+                        m = re.search(r'(table_\w+)\[[^\]]*\]\.mask', x)
+                        if m and any(y.startswith(m.group(1) + '[') and y.endswith('.opcode') for y in txts):
+                            std.setdefault(m.group(1), fn)
+    return std
+
+
+def mask_cover(prog, floor=30):
+    """MASK-COVER: in an opcode table that the decoder searches with `(word & mask) == opcode`, the opcode of every row lies
+    inside its mask.  A row with an opcode bit outside the mask can never satisfy the test: the word the assembler emits for
+    it is matched by some other row (listed under another mnemonic) or by none (`???`).  Rows that are deliberate spellings
+    of another row's encoding (the extra bits are an operand value of the row that does match, e.g. RISC-V `seqz` =
+    `sltiu rd, rs, 1`) are listed in rules/maskcover_table.json with that reason."""
+    import json
+    import os
+    from nk import tables
+    tp = os.path.join(os.path.dirname(os.path.abspath(__file__)), 'maskcover_table.json')
+    accepted = {}
+    if os.path.exists(tp):
+        for e in json.load(open(tp)).get('accepted', []):
+            accepted[(e['table'], e['instr'], e['opcode'])] = e['reason']
+    obs = []
+    std = _std_tables(prog)
+    ntab = 0
+    for t, fn in sorted(std.items()):
+        try:
+            rws, fields, g = tables.rows(prog, t)
+        except (AnalysisBroken, KeyError):
+            continue
+        if 'opcode' not in fields or 'mask' not in fields:
+            continue
+        ntab += 1
+        bad = 0
+        nrow = 0
+        for i, r in enumerate(rws):
+            if not r:
+                continue
+            nm = tables.strval(r.get('instr') or r.get('name'))
+            o, m = const(r.get('opcode')), const(r.get('mask'))
+            if nm is None or o is None or m is None:
+                continue
+            nrow += 1
+            extra = o & ~m & 0xffffffff
+            if not extra:
+                continue
+            why = accepted.get((t, nm, '%#x' % o))
+            if why:
+                obs.append(Ob('MASK-COVER', g['file'], r['opcode']['l'], t, '%s:%s:%#x' % (t, nm, o), OBSERVATION,
+                              'opcode bits %#x outside the mask %#x, accepted: %s' % (extra, m, why)))
+                continue
+            bad += 1
+            obs.append(Ob('MASK-COVER', g['file'], r['opcode']['l'], t, '%s:%s:%#x' % (t, nm, o), VIOLATED,
+                          'row `%s` has opcode %#x and mask %#x: bits %#x of the opcode lie outside the mask, so '
+                          '`(word & mask) == opcode` (%s, %s) is false for every word -- the encoding the assembler emits for '
+                          '%s is listed under another row\'s mnemonic or as ???' % (nm, o, m, extra, fn.q, fn.file, nm)))
+        if not bad:
+            obs.append(Ob('MASK-COVER', g['file'], g.get('line', 0), t, 'table:%s' % t, DISCHARGED, '',
+                          'all %d rows have their opcode inside their mask' % nrow, False))
+    if ntab < floor:
+        raise AnalysisBroken('MASK-COVER: only %d tables with the standard search' % ntab)
+    return RuleResult('MASK-COVER', obs, floor, {'tables': ntab})
+
+
+def guard_len(prog, floor=8):
+    """GUARD-LEN: a decoder that tests the length column of the matched table row (`if (table_T[n].bytes == K)`,
+    `.size == 16/32` in bits) returns that length from the guarded statements: every constant `return L` directly under the
+    guard has L == K (K/8 for a size in bits).  (6809: the 3-byte long branches returned 2.)"""
+    obs = []
+    for fn in sorted(prog.fns.values(), key=lambda f: (f.file, f.line)):
+        if not fn.blocks or not fn.file.startswith('disasm/'):
+            continue
+        k = 0
+        for n in sorted(fn.nodes.values(), key=lambda x: x['i']):
+            if n['k'] != 'IfStmt':
+                continue
+            ks = [x for x in kids(n) if x is not None]
+            if len(ks) < 2:
+                continue
+            cn = strip(ks[0])
+            if cn['k'] != 'BinaryOperator' or cn.get('op') != '==':
+                continue
+            l, r = kids(cn)
+            K = col = None
+            for a, b in ((l, r), (r, l)):
+                t = show(strip(a, casts=True))
+                if const(b) is not None and 'table_' in t and t.split('.')[-1] in ('bytes', 'size', 'length', 'len'):
+                    K, col = const(b), t.split('.')[-1]
+            if K is None:
+                continue
+            want = K // 8 if col == 'size' and K in (8, 16, 24, 32, 48, 64) else K
+            # returns directly under the guard (not inside a nested guard on the same column)
+            then = ks[1]
+            for x in walk(then):
+                if x['k'] == 'ReturnStmt' and kids(x):
+                    v = const(kids(x)[0])
+                    if v is None or v <= 0:
+                        continue
+                    # skip returns under a nested length guard
+                    p = fn.parent.get(x['i'])
+                    nested = False
+                    while p is not None and p is not n:
+                        if p['k'] == 'IfStmt' and p is not n:
+                            c2 = show(strip([y for y in kids(p) if y is not None][0]))
+                            if 'table_' in c2 and any(('.' + c_ + ' ==') in c2 for c_ in ('bytes', 'size', 'length', 'len')):
+                                nested = True
+                        p = fn.parent.get(p['i'])
+                    if nested:
+                        continue
+                    k += 1
+                    ok = v == want
+                    obs.append(Ob('GUARD-LEN', fn.file, x['l'], fn.q, 'return#%d' % k, DISCHARGED if ok else VIOLATED,
+                                  '' if ok else '`return %d` under `%s`: the row says the instruction is %d byte(s) long, the decoder '
+                                  'advances by %d: the following bytes are decoded out of step' % (v, show(cn), want, v),
+                                  'returns the row\'s length %d' % want, False))
+    if len(obs) < floor:
+        raise AnalysisBroken('GUARD-LEN: only %d guarded returns' % len(obs))
+    return RuleResult('GUARD-LEN', obs, floor, {})
